@@ -462,6 +462,37 @@ func (fr *frame) lookup(x *ssa.Lookup, st *State) Value {
 		fx.enc.Assume(And(Le("0", v.T), Le(v.T, "255")))
 		return v
 	}
+	// lookup in an immutable package-level map given by a literal with constant keys and values: exact table
+	if ld, ok := x.X.(*ssa.UnOp); ok {
+		if g, ok := ld.X.(*ssa.Global); ok && fx.E.immGlobal[g] {
+			if gf := fx.E.globalLit[g]; gf != nil && gf.isMap && len(gf.mapV) <= 256 {
+				key := fr.val(x.Index)
+				mt := under(x.X.Type()).(*types.Map)
+				val := Term("0")
+				var hit []Term
+				for i := len(gf.mapV) - 1; i >= 0; i-- {
+					var c Term
+					if gf.mapS != nil {
+						// string key: same length and the same bytes
+						cs := []Term{Eq(key.Len, Num(int64(len(gf.mapS[i]))))}
+						for j := 0; j < len(gf.mapS[i]); j++ {
+							cs = append(cs, Eq(Select(fx.strMem(), Add(key.T, Num(int64(j)))), Num(int64(gf.mapS[i][j]))))
+						}
+						c = fx.enc.Def("mapkey", "Bool", And(cs...))
+					} else {
+						c = Eq(key.T, Num(gf.mapK[i]))
+					}
+					val = Ite(c, Num(gf.mapV[i]), val)
+					hit = append(hit, c)
+				}
+				v := IntV(fx.enc.Def("maplit", "Int", val), mt.Elem())
+				if x.CommaOk {
+					return Value{Kind: KTuple, Elems: []Value{v, BoolV(fx.enc.Def("mapok", "Bool", Or(hit...)))}, Typ: x.Type()}
+				}
+				return v
+			}
+		}
+	}
 	// map lookup: unconstrained result
 	fx.note("map contents are opaque (updates ignored, lookups unconstrained)")
 	res := fx.sym("maplookup", x.Type())
